@@ -2396,6 +2396,29 @@ impl<T: TypeConfig> LeaderState<T> {
                 }
             }
         }
+
+        // The commit index can stop inside a batch (e.g. the per-request entry cap is smaller than the
+        // batch, so followers acknowledge it piecewise). Batches are contiguous and ordered, so only the
+        // first remaining one can be partially committed: hand over the senders of its committed
+        // prefix now. Otherwise their entries are applied before the batch is drained, the apply
+        // results find no registered sender, and those requests are never answered.
+        if let Some(mut first) = self.pending_client_writes.first_entry() {
+            let meta = first.get_mut();
+            if meta.start_idx <= new_commit && !meta.senders.is_empty() {
+                let n = ((new_commit - meta.start_idx + 1) as usize).min(meta.senders.len());
+                let start_idx = meta.start_idx;
+                let wait_for_apply = meta.wait_for_apply;
+                let committed: Vec<_> = meta.senders.drain(..n).collect();
+                meta.start_idx += n as u64;
+                for (i, sender) in committed.into_iter().enumerate() {
+                    if wait_for_apply {
+                        self.pending_write_apply.insert(start_idx + i as u64, sender);
+                    } else {
+                        let _ = sender.send(Ok(ClientResponse::write_success()));
+                    }
+                }
+            }
+        }
     }
 
     /// Fire-and-forget noop entry to confirm quorum after election.
